@@ -196,7 +196,7 @@ fn reopen_check(c: &mut Case, path: &Path, st: &Start, model: &BTreeMap<String, 
             return;
         }
         Err(p) => {
-            c.violate(format!("reopen-open-panic|v{}|{}", st.version, p.sig()), format!("Archive::open panicked after the history: {}", p.msg), json!({}));
+            c.violate(feat.sig("reopen-open-panic", st.version, "-", &p.sig()), format!("Archive::open panicked after the history: {}", p.msg), json!({}));
             return;
         }
     };
@@ -204,7 +204,7 @@ fn reopen_check(c: &mut Case, path: &Path, st: &Start, model: &BTreeMap<String, 
         c.count("reopen_reads", 1);
         let lw = feat.last_writer.get(n).cloned().unwrap_or_else(|| if n == "SEED\\ENC.BIN" { "seed-enc".to_string() } else { "seed".to_string() });
         match trap(|| ar.read_file(n)) {
-            Err(p) => c.violate(format!("reopen-read-panic|v{}|last={lw}|{}", st.version, p.sig()), format!("read_file({:?}) panicked after reopen: {}", n, p.msg), json!({})),
+            Err(p) => c.violate(feat.sig("reopen-read-panic", st.version, &lw, &p.sig()), format!("read_file({:?}) panicked after reopen: {}", n, p.msg), json!({})),
             Ok(Err(e)) => c.violate(
                 feat.sig("reopen-read-error", st.version, &lw, &format!("ops={}|{}", ops_sig(feat), if e.to_string().contains("not found") { "not-found" } else { "other" })),
                 format!("after reopen ({when}) read_file({:?}) fails: {e}; the model holds {} bytes (last defined by {lw})", n, want.len()),
@@ -231,7 +231,7 @@ fn reopen_check(c: &mut Case, path: &Path, st: &Start, model: &BTreeMap<String, 
         match trap(|| ar.read_file(n)) {
             Ok(Ok(d)) => c.violate(feat.sig("reopen-removed-name-readable", st.version, "-", &format!("ops={}", ops_sig(feat))), format!("after reopen ({when}) {:?} is readable ({} bytes) although the model does not contain it", n, d.len()), json!({"name": n})),
             Ok(Err(_)) => {}
-            Err(p) => c.violate(format!("reopen-read-panic|v{}|absent|{}", st.version, p.sig()), format!("read_file({:?}) panicked: {}", n, p.msg), json!({})),
+            Err(p) => c.violate(feat.sig("reopen-read-panic", st.version, "absent", &p.sig()), format!("read_file({:?}) panicked: {}", n, p.msg), json!({})),
         }
     }
     if st.listfile {
@@ -247,7 +247,7 @@ fn reopen_check(c: &mut Case, path: &Path, st: &Start, model: &BTreeMap<String, 
                 }
             }
             Ok(Err(e)) => c.violate(feat.sig("reopen-list-error", st.version, "-", &format!("ops={}", ops_sig(feat))), format!("list() fails after reopen: {e}"), json!({})),
-            Err(p) => c.violate(format!("reopen-list-panic|v{}|{}", st.version, p.sig()), format!("list() panicked: {}", p.msg), json!({})),
+            Err(p) => c.violate(feat.sig("reopen-list-panic", st.version, "-", &p.sig()), format!("list() panicked: {}", p.msg), json!({})),
         }
     }
 }
@@ -534,7 +534,7 @@ fn main() {
     }
     if thorough {
         // length 3, sampled
-        let n3 = 30000u64;
+        let n3 = 300000u64;
         for k in 0..n3 {
             let i = idx;
             idx += 1;
@@ -557,7 +557,7 @@ fn main() {
     for k in 0..24 {
         ex_names.push(format!("bulk\\file{k:02}.dat"));
     }
-    let nrand = if thorough { 3000 } else { 240 };
+    let nrand = if thorough { 40000 } else { 2000 };
     for k in 0..nrand {
         let i = idx;
         idx += 1;
